@@ -15,6 +15,12 @@ Public API (nothing here imports primaite; every random choice comes from the `r
         BOOTING / SHUTTING_DOWN for hosts, switches, routers and firewalls alike (at least one host OFF, one ON).
     permute_mappings(cfg, rng) -> dict      same scenario, the key order of EVERY mapping shuffled (lists untouched)
     reserialise(cfg, rng) -> dict           same scenario through a YAML dump in another style (flow/block, widths, sorted keys) and reload
+    format_variants(cfg, rng, which=None) -> [(name, dict)]
+        formatting-only re-writings of the same file, each produced as YAML TEXT and parsed back with yaml.safe_load (what
+        PrimAITE itself uses): "aliases" (equal sub-mappings written once with an anchor and referred to by alias: the parsed
+        document SHARES those objects), "merge-keys" (`<<: *common` for the keys hosts have in common), "comments" (full-line
+        comments sprinkled over a block-style dump), "quoted-ints" (integers the loaders coerce - ACL positions, action-map
+        keys, num_ports, durations, bandwidths, route metrics, NIC keys - written as quoted strings).
     summary(cfg) -> dict                    counts (nodes by type, links, acl rules, routes, software, users, files, agents)
     hosts_of(cfg) / routers_of(cfg) ...     small accessors used by callers that need vocabularies
 
@@ -460,7 +466,8 @@ SOFTWARE_VOCABULARY = {
     "ransomware-script": ("applications", {"server_ip": _mx_ip, "server_password": _mx_pw, "payload": lambda r, e: "ENCRYPT2"}),
     "c2-beacon": ("applications", {"c2_server_ip_address": _mx_ip, "keep_alive_frequency": lambda r, e: r.choice([2, 3, 9]),
                                    "masquerade_protocol": lambda r, e: "udp", "masquerade_port": lambda r, e: r.choice([53, 21])}),
-    "c2-server": ("applications", {}),
+    "c2-server": ("applications", {"keep_alive_frequency": lambda r, e: r.choice([2, 3, 9]), "masquerade_protocol": lambda r, e: "udp",
+                                   "masquerade_port": lambda r, e: r.choice([53, 21])}),
     "nmap": ("applications", {}),
 }
 
@@ -761,6 +768,102 @@ def reserialise(cfg: dict, rng) -> dict:
     else:
         text = yaml.safe_dump(cfg, default_flow_style=False, sort_keys=False, indent=4, default_style='"')
     return yaml.safe_load(text)
+
+
+def _intern(o: Any, pool: Dict[str, Any]) -> Any:
+    """Deep copy in which equal mappings / lists (of some size) are ONE object, so that the YAML dumper writes anchors/aliases."""
+    if isinstance(o, dict):
+        d = {k: _intern(v, pool) for k, v in o.items()}
+        if len(d) >= 2:
+            key = "D" + yaml.safe_dump(d, sort_keys=True)
+            return pool.setdefault(key, d)
+        return d
+    if isinstance(o, list):
+        l = [_intern(v, pool) for v in o]
+        if len(l) >= 2:
+            key = "L" + yaml.safe_dump(l, sort_keys=True)
+            return pool.setdefault(key, l)
+        return l
+    return o
+
+
+def _quote_ints(cfg: dict) -> dict:
+    c = copy.deepcopy(cfg)
+    net = c.get("simulation", {}).get("network", {})
+    for n in net.get("nodes", []):
+        for k in ("num_ports", "start_up_duration", "shut_down_duration"):
+            if isinstance(n.get(k), int):
+                n[k] = str(n[k])
+        if isinstance(n.get("network_interfaces"), dict):
+            n["network_interfaces"] = {str(k): v for k, v in n["network_interfaces"].items()}
+        acl = n.get("acl")
+        if isinstance(acl, dict):
+            if n["type"] == "firewall":
+                n["acl"] = {nm: ({str(k): v for k, v in a.items()} if isinstance(a, dict) else a) for nm, a in acl.items()}
+            else:
+                n["acl"] = {str(k): v for k, v in acl.items()}
+        for r in n.get("routes") or []:
+            if isinstance(r.get("metric"), int):
+                r["metric"] = str(r["metric"])
+        for e in (n.get("services") or []) + (n.get("applications") or []):
+            o = e.get("options") or {}
+            for k in ("fixing_duration", "max_sessions", "keep_alive_frequency"):  # not target_port: a string there is a port NAME
+                if isinstance(o.get(k), int) and not isinstance(o.get(k), bool):
+                    o[k] = str(o[k])
+    for l in net.get("links", []):
+        if isinstance(l.get("bandwidth"), int):
+            l["bandwidth"] = str(l["bandwidth"])
+    for a in c.get("agents", []):
+        am = (a.get("action_space") or {}).get("action_map")
+        if isinstance(am, dict):
+            a["action_space"]["action_map"] = {str(k): v for k, v in am.items()}
+    return c
+
+
+def format_variants(cfg: dict, rng, which: Optional[List[str]] = None) -> List[tuple]:
+    out = []
+    names = which or ["aliases", "merge-keys", "comments", "quoted-ints"]
+    for name in names:
+        if name == "aliases":
+            text = yaml.safe_dump(_intern(cfg, {}), default_flow_style=False, sort_keys=False)
+            out.append((name, yaml.safe_load(text)))
+        elif name == "merge-keys":
+            c = copy.deepcopy(cfg)
+            hosts = [n for n in c["simulation"]["network"]["nodes"] if n["type"] in ("computer", "server")]
+            common: Dict[str, Any] = {}
+            for k in ("subnet_mask", "default_gateway", "dns_server", "start_up_duration", "shut_down_duration"):
+                vals = [h[k] for h in hosts if k in h]
+                if vals:
+                    v = max(set(map(str, vals)), key=lambda x: sum(1 for y in vals if str(y) == x))
+                    common[k] = next(y for y in vals if str(y) == v)
+            if not common:
+                continue
+            for h in hosts:
+                # `<<` gives a key only where the host does not spell it out itself: every host keeps its own value set
+                if all(k in h and h[k] == v for k, v in common.items()):
+                    for k in common:
+                        del h[k]
+                    h["<<"] = "__MERGE_COMMON__"
+            meta = dict(c.pop("metadata", {}) or {})
+            body = yaml.safe_dump(c, default_flow_style=False, sort_keys=False)
+            body = body.replace("'<<': __MERGE_COMMON__", "<<: *common_host").replace('"<<": __MERGE_COMMON__', "<<: *common_host")
+            head = "metadata:\n" + "".join(f"  {k}: {yaml.safe_dump(v, default_flow_style=True).strip().splitlines()[0]}\n"
+                                            for k, v in meta.items()) + "  common_host: &common_host\n" + \
+                   "".join(f"    {k}: {yaml.safe_dump(v, default_flow_style=True).strip().splitlines()[0]}\n" for k, v in common.items())
+            parsed = yaml.safe_load(head + body)
+            out.append((name, parsed))
+        elif name == "comments":
+            text = yaml.safe_dump(cfg, default_flow_style=False, sort_keys=False, width=10 ** 6)
+            lines = []
+            for ln in text.splitlines():
+                if rng.chance(1, 5):
+                    lines.append(" " * rng.below(8) + "# " + rng.choice(["note", "TODO: check", "key: value", "- item", "{not: yaml}"]))
+                lines.append(ln)
+            out.append((name, yaml.safe_load("\n".join(lines) + "\n")))
+        elif name == "quoted-ints":
+            text = yaml.safe_dump(_quote_ints(cfg), default_flow_style=False, sort_keys=False)
+            out.append((name, yaml.safe_load(text)))
+    return out
 
 
 def summary(cfg: dict) -> dict:
